@@ -290,6 +290,33 @@ def shard(ctx):
                         break
                     run_one(('select', sel, attr, extra), (pre, unit, suf))
 
+        # 3b. custom maps whose definitions refer to each other (input = the whole map): growth in the number of aliases
+        if k < 4:
+            shape = ('fib', 'nest', 'not', 'line')[k]
+            ts = {}
+            for n_al in (6, 10, 14, 18, 22):
+                res = w.ask({'op': 'compile-custom', 'n': n_al, 'shape': shape})
+                ts[n_al] = float('inf') if res == float('inf') else res['t']
+                col.count()
+                if ts[n_al] > SLOW:
+                    break
+            col.nontrivial_case(['custom-chain', shape], {'target': 'compile with an interlinked custom map', 'shape': shape,
+                                                         'cpu_by_aliases': {str(a_): (round(t_, 5) if t_ != float('inf') else 'killed') for a_, t_ in ts.items()}})
+            last = max(ts)
+            half = ts.get(10, ts[min(ts)])
+            if ts[last] > SLOW and ts[last] / max(half, 2e-4) >= 64:
+                w.close()
+                w.spawn()
+                res = w.ask({'op': 'compile-custom', 'n': last, 'shape': shape})
+                t2 = float('inf') if res == float('inf') else res['t']
+                if t2 > SLOW:
+                    violations += 1
+                    col.fail('superpoly-compile-custom-map',
+                             {'target': ['compile-custom', shape], 'triple': ['', str(last), '']},
+                             f'compile(":--c0", custom=<{last} interlinked aliases, shape {shape}>) costs '
+                             f'{"killed" if t2 == float("inf") else round(t2, 3)} s CPU; by alias count: '
+                             f'{ {a_: (round(t_, 4) if t_ != float("inf") else "killed") for a_, t_ in ts.items()} }')
+
         # 4. exhaustive two-token units against compile() (complete in thorough; budget-limited in quick)
         if stage1(2, ctx['budget_s'] * 0.25):
             col.extra['compile_units2_complete'] = 1
@@ -313,6 +340,19 @@ def shard(ctx):
 
 
 def replay(case):
+    if case['target'][0] == 'compile-custom':
+        w = Worker()
+        try:
+            n_al = int(case['triple'][1])
+            r1 = w.ask({'op': 'compile-custom', 'n': n_al, 'shape': case['target'][1]})
+            r0 = w.ask({'op': 'compile-custom', 'n': 10, 'shape': case['target'][1]})
+        finally:
+            w.close()
+        t1 = float('inf') if r1 == float('inf') else r1['t']
+        t0 = 1.0 if r0 == float('inf') else r0['t']
+        if t1 > SLOW and t1 / max(t0, 2e-4) >= 64:
+            return ('superpoly-compile-custom-map', f'{n_al} aliases cost {t1} s, 10 aliases {t0} s')
+        return None
     w = Worker()
     try:
         verdict, detail = assess(w, tuple(case['target']), tuple(case['triple']))
@@ -326,6 +366,8 @@ def replay(case):
 
 
 def shrink(case, still, cap):
+    if case['target'][0] == 'compile-custom':
+        return case
     """Shorten the unit / drop prefix / suffix while the violation persists (each probe may cost seconds)."""
     t_end = time.time() + cap
     pre, unit, suf = case['triple']
